@@ -1131,8 +1131,11 @@ fn main() {
             // shrink a little: drop trailing ops / shorten input while it still fails
             let mut best = c.clone();
             let mut best_e = e;
+            let shrink_until = Instant::now() + std::time::Duration::from_secs(10);
             loop {
                 let mut improved = false;
+                // (no shrinking of the expensive cases; never shrink for more than 10 s)
+                if family == "large" || Instant::now() > shrink_until { break; }
                 for i in (0..best.ops.len()).rev() {
                     let mut c2 = best.clone();
                     c2.ops.remove(i);
